@@ -4,7 +4,8 @@ package main
 // set with the given powers, real ed25519 keys) receives ONE vote message carrying the whole
 // vote multiset for (height 1, round 0 or 1); afterwards the voting view is read back.
 //
-// input : id|p0,p1,..|pv or pc|round|hex:mask;hex:mask
+// input : id|p0,p1,..|pv or pc|round|hex:mask;hex:mask            (one message)
+//         id|p0,p1,..|pv,round,entries/pc,round,entries/...       (a history; one output line "id.step|..." per message)
 // output: id|result|H|R|avail|totPV|totPC|pvBlock|pcBlock|mostPV|mostPC|pvProofs|pcProofs
 //         (proofs of the voting view as hex:mask;... , masks recomputed from SignatureBitSet)
 
@@ -52,12 +53,20 @@ func proofMasks(m map[string]gcrypto.CommonMessageSignatureProof) string {
 	return strings.Join(out, ";")
 }
 
-func runScenario(pool tmconsensustest.PrivVals, f []string) string {
+type message struct {
+	prevote bool
+	round   uint32
+	entries []entry
+}
+
+// runMessages builds a fresh real mirror for the given powers, delivers the messages in order and
+// returns one observation line per message (the voting view read back after it).
+func runMessages(pool tmconsensustest.PrivVals, id string, powersField string, msgs []message) []string {
 	ctx, cancel := context.WithCancel(context.Background())
 	defer cancel()
 
 	var powers []uint64
-	for _, p := range strings.Split(f[1], ",") {
+	for _, p := range strings.Split(powersField, ",") {
 		v, err := strconv.ParseUint(p, 10, 64)
 		if err != nil {
 			panic(err)
@@ -71,8 +80,6 @@ func runScenario(pool tmconsensustest.PrivVals, f []string) string {
 	for i := range fx.PrivVals {
 		fx.PrivVals[i].Val.Power = powers[i]
 	}
-	round64, _ := strconv.ParseUint(f[3], 10, 32)
-	round := uint32(round64)
 
 	log := slog.New(slog.NewTextHandler(io.Discard, nil))
 	wd, _ := gwatchdog.NewNopWatchdog(ctx, log)
@@ -94,7 +101,7 @@ func runScenario(pool tmconsensustest.PrivVals, f []string) string {
 	}
 	m, err := tmengine.VerifC06NewMirror(ctx, log, cfg)
 	if err != nil {
-		return fmt.Sprintf("%s|ERR %v", f[0], err)
+		return []string{fmt.Sprintf("%s|ERR %v", id, err)}
 	}
 	defer func() {
 		cancel()
@@ -103,31 +110,46 @@ func runScenario(pool tmconsensustest.PrivVals, f []string) string {
 	}()
 
 	keyHash, _ := fx.ValidatorHashes()
-	vm := voteMap(parseEntries(f[4]), n)
-	var res tmconsensus.HandleVoteProofsResult
-	hctx, hcancel := context.WithTimeout(ctx, 5*time.Second)
-	defer hcancel()
-	if f[2] == "pv" {
-		res = m.HandlePrevoteProofs(hctx, tmconsensus.PrevoteSparseProof{
-			Height: 1, Round: round, PubKeyHash: keyHash,
-			Proofs: fx.SparsePrevoteProofMap(ctx, 1, round, vm),
-		})
-	} else {
-		res = m.HandlePrecommitProofs(hctx, tmconsensus.PrecommitSparseProof{
-			Height: 1, Round: round, PubKeyHash: keyHash,
-			Proofs: fx.SparsePrecommitProofMap(ctx, 1, round, vm),
-		})
+	var out []string
+	for step, msg := range msgs {
+		sid := id
+		if len(msgs) > 1 {
+			sid = fmt.Sprintf("%s.%d", id, step)
+		}
+		vm := voteMap(msg.entries, n)
+		var res tmconsensus.HandleVoteProofsResult
+		hctx, hcancel := context.WithTimeout(ctx, 5*time.Second)
+		if msg.prevote {
+			res = m.HandlePrevoteProofs(hctx, tmconsensus.PrevoteSparseProof{
+				Height: 1, Round: msg.round, PubKeyHash: keyHash,
+				Proofs: fx.SparsePrevoteProofMap(ctx, 1, msg.round, vm),
+			})
+		} else {
+			res = m.HandlePrecommitProofs(hctx, tmconsensus.PrecommitSparseProof{
+				Height: 1, Round: msg.round, PubKeyHash: keyHash,
+				Proofs: fx.SparsePrecommitProofMap(ctx, 1, msg.round, vm),
+			})
+		}
+		var vrv tmconsensus.VersionedRoundView
+		err := m.VotingView(hctx, &vrv)
+		hcancel()
+		if err != nil {
+			out = append(out, fmt.Sprintf("%s|ERR voting view: %v", sid, err))
+			return out
+		}
+		vs := vrv.VoteSummary
+		out = append(out, fmt.Sprintf("%s|%d|%d|%d|%d|%d|%d|%s|%s|%s|%s|%s|%s", sid, res, vrv.Height, vrv.Round,
+			vs.AvailablePower, vs.TotalPrevotePower, vs.TotalPrecommitPower,
+			fmtMap(vs.PrevoteBlockPower), fmtMap(vs.PrecommitBlockPower),
+			hexOrDash(vs.MostVotedPrevoteHash), hexOrDash(vs.MostVotedPrecommitHash),
+			proofMasks(vrv.PrevoteProofs), proofMasks(vrv.PrecommitProofs)))
 	}
-	var vrv tmconsensus.VersionedRoundView
-	if err := m.VotingView(hctx, &vrv); err != nil {
-		return fmt.Sprintf("%s|ERR voting view: %v", f[0], err)
-	}
-	vs := vrv.VoteSummary
-	return fmt.Sprintf("%s|%d|%d|%d|%d|%d|%d|%s|%s|%s|%s|%s|%s", f[0], res, vrv.Height, vrv.Round,
-		vs.AvailablePower, vs.TotalPrevotePower, vs.TotalPrecommitPower,
-		fmtMap(vs.PrevoteBlockPower), fmtMap(vs.PrecommitBlockPower),
-		hexOrDash(vs.MostVotedPrevoteHash), hexOrDash(vs.MostVotedPrecommitHash),
-		proofMasks(vrv.PrevoteProofs), proofMasks(vrv.PrecommitProofs))
+	return out
+}
+
+func parseMessage(kind, round, ents string) message {
+	r, _ := strconv.ParseUint(round, 10, 32)
+	return message{prevote: kind == "pv", round: uint32(r), entries: parseEntries(ents)}
 }
 
 func mirrorMain() {
@@ -142,11 +164,27 @@ func mirrorMain() {
 			continue
 		}
 		f := strings.Split(line, "|")
-		if len(f) != 5 {
+		var msgs []message
+		switch {
+		case len(f) == 5:
+			// id|powers|pv or pc|round|entries
+			msgs = []message{parseMessage(f[2], f[3], f[4])}
+		case len(f) == 3:
+			// history: id|powers|kind,round,entries/kind,round,entries/...
+			for _, ms := range strings.Split(f[2], "/") {
+				p := strings.SplitN(ms, ",", 3)
+				if len(p) != 3 {
+					continue
+				}
+				msgs = append(msgs, parseMessage(p[0], p[1], p[2]))
+			}
+		default:
 			fmt.Fprintf(w, "%s|BADLINE\n", f[0])
 			continue
 		}
-		fmt.Fprintln(w, runScenario(pool, f))
+		for _, l := range runMessages(pool, f[0], f[1], msgs) {
+			fmt.Fprintln(w, l)
+		}
 		w.Flush()
 	}
 }
